@@ -2,7 +2,7 @@
 """Regenerates /verif/MANIFEST.json from the table below. Run after adding a check."""
 import json, subprocess
 
-HOOKS_COMMIT = "4564ba4"
+HOOKS_COMMITS = ["4564ba4", "93a2b40"]
 
 E1 = "stateright 0.31 explicit-state BFS over the real DataRowIterator + scripted driver, lock-step reference interpreter"
 E2 = "own bounded-exhaustive enumerator (mixed-radix / unranked index spaces split over all cores) running the real public API against the reference model"
@@ -95,7 +95,7 @@ def main():
             "guard": "verif-hooks",
             "enable": "cargo feature verif-hooks of digital_test_runner, enabled by the harness' path dependency on /repo (harness/Cargo.toml)",
             "baseline_off_cmd": "cd /repo && cargo test --workspace --no-fail-fast --offline",
-            "source_commits": [HOOKS_COMMIT],
+            "source_commits": HOOKS_COMMITS,
             "add_only": True,
         },
         "engines": [
